@@ -71,6 +71,76 @@ pub trait MarkerKind: 'static {
     fn nil_id() -> Option<<Self::M as Marker>::Identifier> {
         None
     }
+    /// gives the marker data that is not part of its identity (if the kind has any)
+    fn decorate(_m: &mut Self::M, _k: u32) {}
+}
+
+/// A user-defined marker in the shape of the `Marker` documentation: an id plus data that is not used
+/// for identification but takes part in the derived `Eq` / `Hash`.
+#[derive(Clone, Debug, PartialEq, Eq, Hash, Serialize, Deserialize)]
+pub struct NetMarker {
+    id: u64,
+    seq: u32,
+}
+
+impl Component for NetMarker {
+    type Storage = DenseVecStorage<Self>;
+}
+
+impl Marker for NetMarker {
+    type Identifier = u64;
+    type Allocator = NetAllocator;
+    fn id(&self) -> u64 {
+        self.id
+    }
+    fn update(&mut self, new_revision: Self) {
+        self.seq = new_revision.seq;
+    }
+}
+
+#[derive(Default)]
+pub struct NetAllocator {
+    next: u64,
+    mapping: std::collections::HashMap<u64, Entity>,
+}
+
+impl MarkerAllocator<NetMarker> for NetAllocator {
+    fn allocate(&mut self, entity: Entity, id: Option<u64>) -> NetMarker {
+        let id = id.unwrap_or(self.next);
+        if id >= self.next {
+            self.next = id + 1;
+        }
+        self.mapping.insert(id, entity);
+        NetMarker { id, seq: 0 }
+    }
+    fn retrieve_entity_internal(&self, id: u64) -> Option<Entity> {
+        self.mapping.get(&id).cloned()
+    }
+    fn maintain(&mut self, entities: &specs::world::EntitiesRes, storage: &ReadStorage<NetMarker>) {
+        self.mapping = (entities, storage).join().map(|(e, m)| (m.id, e)).collect();
+    }
+}
+
+pub struct NetKind;
+impl MarkerKind for NetKind {
+    type M = NetMarker;
+    type A = NetAllocator;
+    const NAME: &'static str = "NetMarker";
+    fn id_string(m: &Self::M) -> String {
+        format!("{}", m.id)
+    }
+    fn explicit(n: u64) -> u64 {
+        n
+    }
+    fn numeric(m: &Self::M) -> Option<u64> {
+        Some(m.id)
+    }
+    fn explicit_string(n: u64) -> String {
+        format!("{}", n)
+    }
+    fn decorate(m: &mut Self::M, k: u32) {
+        m.seq = k;
+    }
 }
 
 pub struct SimpleKind;
@@ -365,6 +435,16 @@ fn build_src<K: MarkerKind>(case: &SaveCase) -> Result<Src, Violation> {
             ensure!("C15", "mark-live", matches!(r, Some((_, true))), "marking the live unmarked {:?} did not allocate a marker", ents[*i]);
         }
     }
+    // data that is not part of the marker's identity (kinds that have any)
+    {
+        use specs::storage::AccessMut;
+        let mut markers = src.write_storage::<K::M>();
+        for (k, i) in marked_idx.iter().enumerate() {
+            if let Some(mut m) = markers.get_mut(ents[*i]) {
+                K::decorate(m.access_mut(), k as u32 + 1);
+            }
+        }
+    }
     // allowed reference targets
     let allowed: Vec<usize> = if case.recursive { (0..n).collect() } else { marked_idx.clone() };
     let tgt = |sel: u16| -> Option<usize> {
@@ -577,6 +657,8 @@ fn c14_one<K: MarkerKind>(case: &SaveCase) -> Result<SaveFacts, Violation> {
 fn c14_dispatch(case: &SaveCase) -> Result<SaveFacts, Violation> {
     if case.uuid {
         c14_one::<UuidKind>(case)
+    } else if case.shift % 3 == 2 {
+        c14_one::<NetKind>(case)
     } else {
         c14_one::<SimpleKind>(case)
     }
@@ -586,7 +668,7 @@ fn c14_run(ctx: &ShardCtx) -> ShardResult {
     let cases = ctx.tier.pick(10000, 250_000);
     run_proptest(ctx, save_case(), cases, 14, |c, stats| {
         let f = c14_dispatch(c)?;
-        stats.label(if c.uuid { "marker.uuid" } else { "marker.simple" });
+        stats.label(if c.uuid { "marker.uuid" } else if c.shift % 3 == 2 { "marker.user-defined" } else { "marker.simple" });
         stats.label(if c.ron { "format.ron" } else { "format.json" });
         stats.label(if c.recursive { "recursive" } else { "non-recursive" });
         if c.holes.first().map(|h| h % 2 == 1).unwrap_or(false) && c.churn.is_empty() {
@@ -644,6 +726,9 @@ pub enum MOp {
     SetPlain { world: bool, sel: u16, val: Option<u32> },
     /// LazyUpdate::create_entity(..).marked::<M>().build(): the marking runs at the next maintain
     LazyMarked { world: bool, plain: Option<u32> },
+    /// the load is queued as a lazy action and runs inside the next maintain (which follows at once):
+    /// after that maintain's deletions took effect
+    LazyLoad { buf: u8, into: bool },
 }
 
 #[derive(Clone, Debug, Serialize, Deserialize, Hash, PartialEq, Eq)]
@@ -666,6 +751,7 @@ fn mop() -> impl Strategy<Value = MOp> {
         5 => (any::<u8>(), any::<bool>()).prop_map(|(buf, into)| MOp::Load { buf, into }),
         2 => (any::<bool>(), any::<u16>(), proptest::option::of(0u32..100)).prop_map(|(world, sel, val)| MOp::SetPlain { world, sel, val }),
         2 => (any::<bool>(), proptest::option::of(0u32..100)).prop_map(|(world, plain)| MOp::LazyMarked { world, plain }),
+        2 => (any::<u8>(), any::<bool>()).prop_map(|(buf, into)| MOp::LazyLoad { buf, into }),
     ]
 }
 
@@ -841,7 +927,33 @@ fn c15_one<K: MarkerKind>(case: &MergeCase, mut transcript: Option<&mut Vec<Stri
             nw.poke();
         }
         let step = format!("step {} {:?}", n, op);
+        // an operation may expand into sub-operations (LazyLoad = queue, maintain, model of the load)
+        let mut sub_ops: Vec<MOp> = vec![op.clone()];
+        let mut load_already_ran = false;
+        while let Some(op) = sub_ops.pop() {
+        let op = &op;
         match op {
+            MOp::LazyLoad { buf, into } => {
+                if bufs.is_empty() {
+                    continue;
+                }
+                let bi = (*buf as usize * bufs.len()) >> 8;
+                let data = bufs[bi].0.clone();
+                let w = &mut ws[*into as usize];
+                let failed: std::sync::Arc<std::sync::Mutex<Option<String>>> = Default::default();
+                let f2 = failed.clone();
+                w.world.read_resource::<LazyUpdate>().exec_mut(move |world| {
+                    if let Err(e) = load::<K>(world, Format::Json, &data) {
+                        *f2.lock().unwrap() = Some(e);
+                    }
+                });
+                // popped in reverse order: first the maintain (which runs the queued load after its deletions),
+                // then the model of the load
+                load_already_ran = true;
+                sub_ops.push(MOp::Load { buf: *buf, into: *into });
+                sub_ops.push(MOp::Maintain { world: *into });
+                let _ = failed;
+            }
             MOp::Create { world, marked, plain, late, refto } => {
                 let w = &mut ws[*world as usize];
                 let e = w.world.create_entity().build();
@@ -1095,7 +1207,12 @@ fn c15_one<K: MarkerKind>(case: &MergeCase, mut transcript: Option<&mut Vec<Stri
                 if records.iter().any(|r| before.contains_key(&r.id)) && deleted_marked[wi] {
                     facts.load_with_existing_and_deleted += 1;
                 }
-                load::<K>(&mut w.world, Format::Json, &data).map_err(|e| vio("C15", "deserialize-error", format!("{}: {}", step, e)))?;
+                if load_already_ran {
+                    // the real load ran as a lazy action inside the maintain just before
+                    load_already_ran = false;
+                } else {
+                    load::<K>(&mut w.world, Format::Json, &data).map_err(|e| vio("C15", "deserialize-error", format!("{}: {}", step, e)))?;
+                }
                 // model: update in place / create
                 let mut created: BTreeMap<String, usize> = BTreeMap::new();
                 for r in &records {
@@ -1148,6 +1265,7 @@ fn c15_one<K: MarkerKind>(case: &MergeCase, mut transcript: Option<&mut Vec<Stri
                     }
                 }
             }
+        }
         }
         ws[0].check(&step)?;
         ws[1].check(&step)?;
